@@ -169,6 +169,69 @@ def _drain_forms(fi, path: str, lists: Set[str], settled_names: Set[str]):
     return found, bad, nodes
 
 
+def _flow_closure(fi, lists: Set[str]):
+    """(paths whose value can reach one of ``lists`` through local assignments, tuple / list displays,
+    star-unpacking, comprehensions, append/extend; [(path, node, reason)] for flows that pass a filter which
+    can drop a real future).  A filter ``x is not None`` / ``if x`` only drops absent futures."""
+    edges: Dict[str, Set[str]] = {}
+    filt: Dict[str, List[Tuple[ast.AST, str]]] = {}
+
+    def sources(e: ast.AST) -> Set[str]:
+        out: Set[str] = set()
+        for x in ast.walk(e):
+            d = q.dotted(x) if isinstance(x, (ast.Name, ast.Attribute)) else None
+            if d and isinstance(getattr(x, "ctx", None), ast.Load):
+                out.add(d)
+        return out
+
+    def bad_filters(e: ast.AST) -> List[Tuple[ast.AST, str]]:
+        out = []
+        for x in ast.walk(e):
+            if isinstance(x, (ast.ListComp, ast.GeneratorExp, ast.SetComp)):
+                for g in x.generators:
+                    for cond in g.ifs:
+                        c = cond
+                        okf = (isinstance(c, ast.Compare) and len(c.ops) == 1 and isinstance(c.ops[0], ast.IsNot) and isinstance(c.comparators[0], ast.Constant) and c.comparators[0].value is None) or isinstance(c, ast.Name)
+                        if not okf:
+                            out.append((x, "the comprehension filters on %s (a pending future may be dropped unresolved)" % q.unparse(cond)))
+        return out
+
+    for st in q.walk_body(fi.node):
+        tgt = None
+        val = None
+        if isinstance(st, ast.Assign) and len(st.targets) == 1 and isinstance(st.targets[0], ast.Name):
+            tgt, val = st.targets[0].id, st.value
+        elif isinstance(st, ast.AnnAssign) and isinstance(st.target, ast.Name) and st.value is not None:
+            tgt, val = st.target.id, st.value
+        elif isinstance(as_aug(st), ast.AugAssign) and isinstance(as_aug(st).target, ast.Name):
+            tgt, val = as_aug(st).target.id, as_aug(st).value
+        elif isinstance(st, ast.Expr) and isinstance(st.value, ast.Call) and q.call_attr(st.value) in ("append", "extend", "add") and q.receiver(st.value) and "." not in q.receiver(st.value):
+            tgt, val = q.receiver(st.value), ast.Tuple(elts=list(st.value.args), ctx=ast.Load())
+        if tgt is None:
+            continue
+        edges.setdefault(tgt, set()).update(sources(val))
+        for bf in bad_filters(val):
+            filt.setdefault(tgt, []).append(bf)
+    reach: Set[str] = set()
+    filtered: List[Tuple[str, ast.AST, str]] = []
+    work = list(lists)
+    seen = set(work)
+    via_bad: Dict[str, List[Tuple[ast.AST, str]]] = {l: [] for l in lists}
+    while work:
+        x = work.pop()
+        for s_ in edges.get(x, ()):  # s_ flows into x
+            reach.add(s_)
+            bads = via_bad.get(x, []) + filt.get(x, [])
+            if s_ not in seen:
+                seen.add(s_)
+                via_bad[s_] = bads
+                work.append(s_)
+            if bads and s_.startswith("self."):
+                for node_ast, why in bads:
+                    filtered.append((s_, node_ast, why))
+    return reach, filtered
+
+
 def signal_closed(ck):
     eff = ClassEffects(ck.repo, FAMILY)
     fi = ck.func(IO, B + "._signal_closed")
@@ -229,7 +292,21 @@ def signal_closed(ck):
                 if isinstance(as_aug(st), ast.AugAssign) and q.dotted(as_aug(st).target) == L and any(q.dotted(x) == path for x in ast.walk(as_aug(st).value)):
                     collected = True
                     coll_nodes.append(n)
-        ok = collected or path in directly
+        via_flow = False
+        if not collected and path not in directly:
+            # value flow through locals: field -> local(s) / tuple / comprehension -> the settled list
+            srcs, filtered = _flow_closure(fi, settled_lists)
+            if path in srcs:
+                via_flow = True
+                bad_filter = [f_ for f_ in filtered if f_[0] == path]
+                for _p, node_ast, why in bad_filter:
+                    ck.ob("C13.drain-complete", fi, node_ast, False, "every pending future taken from %s reaches the settle loop - %s" % (path, why))
+        ok = collected or path in directly or via_flow
+        if not ok:
+            # positive evidence needed: if futures are handed to code that is not followed, the rule cannot claim absence
+            for c_ in q.calls(fi.node):
+                if any(q.dotted(a_) == path for a_ in list(c_.args) + [k_.value for k_ in c_.keywords]) or (q.receiver(c_) == "self" and q.call_attr(c_) in eff.methods and q.call_attr(c_) not in ("closed",)):
+                    raise AnalysisError("%s is not settled in _signal_closed itself, but %s() may do it (not followed)" % (path, q.unparse(c_.func)))
         ck.ob("C13.drain-complete", fi, fi.node, ok, "%s (declared as a Future field) is failed by _signal_closed: collected into the settled list or settled directly" % path, construct="%s settled at close" % path)
         # cleared on every path
         if kind == "scalar":
@@ -248,6 +325,9 @@ def signal_closed(ck):
                         if hd and all(cfg.dominates(hd[0], cfg.exit) for _ in [0]):
                             cleared = True
             # collected before cleared
+            if via_flow:
+                for rn in cfg.stmt_nodes(lambda n: n.kind == "stmt" and not clr(n) and any(q.dotted(x) == path and isinstance(getattr(x, "ctx", None), ast.Load) for x in q.walk_local(n.ast))):
+                    ck.ob("C13.drain-complete", fi, rn.ast, ("@clr", True) not in ef[rn.id], "the queued futures are read out before the queue is cleared")
             for cn in coll_nodes:
                 ck.ob("C13.drain-complete", fi, cn.ast, ("@clr", True) not in ef[cn.id] and not (_reach(cfg, {m.id for m in cfg.stmt_nodes(clr)}) & {cn.id}), "the queued futures are collected before the queue is cleared")
         ck.ob("C13.drain-complete", fi, fi.node, cleared, "%s is cleared on every path through _signal_closed (no future is settled twice by a second close)" % path, construct="%s cleared at close" % path)
@@ -255,6 +335,10 @@ def signal_closed(ck):
         for cn in coll_nodes:
             if kind == "scalar":
                 ck.ob("C13.drain-complete", fi, cn.ast, has(gf[cn.id], "%s is None" % path, False), "%s is collected only when set" % path)
+        if kind == "scalar" and via_flow:
+            nonefilter = any(isinstance(x, (ast.ListComp, ast.GeneratorExp)) and any(isinstance(c_, ast.Compare) and isinstance(c_.ops[0], ast.IsNot) or isinstance(c_, ast.Name) for g_ in x.generators for c_ in g_.ifs) for x in q.walk_body(fi.node))
+            loopguard = any(has(gf[n_.id], "%s is None" % v_, False) for n_, _c, v_, _k in ss if v_ in loopvars.values())
+            ck.ob("C13.drain-complete", fi, fi.node, nonefilter or loopguard, "an unset %s (None) never reaches the settle loop" % path, construct="%s: None filtered before settling" % path)
 
     # settles
     n = settles_guarded(ck, "C13.settle-guarded", fi, None, eff, allow_safe_unguarded=True)
@@ -267,7 +351,14 @@ def signal_closed(ck):
             ok = isinstance(arg, ast.Call) and (q.dotted(arg.func) or "").endswith("StreamClosedError") and q.dotted(q.kwarg(arg, "real_error")) == "self.error"
             ck.ob("C13.settle-guarded", fi, c, ok and q.call_attr(c) in ("set_exception", "future_set_exception_unless_cancelled"), "pending operations fail with StreamClosedError(real_error=self.error)")
         else:
-            ok = q.dotted(arg) == "self.error" or (isinstance(arg, ast.Call) and (q.dotted(arg.func) or "").endswith("StreamClosedError"))
+            def _payload_ok(a_):
+                if isinstance(a_, ast.IfExp):
+                    return _payload_ok(a_.body) and _payload_ok(a_.orelse)
+                if isinstance(a_, ast.BoolOp) and isinstance(a_.op, ast.Or):
+                    return all(_payload_ok(v_) for v_ in a_.values)
+                return q.dotted(a_) == "self.error" or (isinstance(a_, ast.Call) and (q.dotted(a_.func) or "").endswith("StreamClosedError"))
+
+            ok = _payload_ok(arg)
             ck.ob("C13.settle-guarded", fi, c, ok, "%s fails with the real error or StreamClosedError" % p)
     ck.floor("C13.settle-guarded", n_loop, 1, "settles of the collected futures")
 
@@ -469,16 +560,19 @@ def close_path(ck):
 def closed_checks(ck):
     eff = ClassEffects(ck.repo, FAMILY)
     # _check_closed
-    cc = ck.func(IO, B + "._check_closed")
-    gf = guard_facts(cc, eff)
-    rs = cc.cfg.stmt_nodes(lambda n: n.kind == "stmt" and isinstance(n.ast, ast.Raise) and n.ast.exc is not None)
-    ck.floor("C13.closed-checks", len(rs), 1, "raises in _check_closed")
-    for r in rs:
-        e = r.ast.exc
-        ok = isinstance(e, ast.Call) and (q.dotted(e.func) or "").endswith("StreamClosedError") and q.dotted(q.kwarg(e, "real_error")) == "self.error"
-        ck.ob("C13.closed-checks", cc, r.ast, ok and (has(gf[r.id], "self.closed()", True) or has(gf[r.id], "self._closed", True)), "_check_closed raises StreamClosedError(real_error=self.error) when the stream is closed")
-    falls = cc.cfg.exit
-    ck.ob("C13.closed-checks", cc, cc.node, has(gf[falls.id], "self.closed()", False) or has(gf[falls.id], "self._closed", False), "_check_closed returns normally only for an open stream", construct="_check_closed normal return implies open")
+    if ck.repo.has_func(IO, B + "._check_closed"):
+        cc = ck.func(IO, B + "._check_closed")
+        gf = guard_facts(cc, eff)
+        rs = cc.cfg.stmt_nodes(lambda n: n.kind == "stmt" and isinstance(n.ast, ast.Raise) and n.ast.exc is not None)
+        ck.floor("C13.closed-checks", len(rs), 1, "raises in _check_closed")
+        for r in rs:
+            e = r.ast.exc
+            ok = isinstance(e, ast.Call) and (q.dotted(e.func) or "").endswith("StreamClosedError") and q.dotted(q.kwarg(e, "real_error")) == "self.error"
+            ck.ob("C13.closed-checks", cc, r.ast, ok and (has(gf[r.id], "self.closed()", True) or has(gf[r.id], "self._closed", True)), "_check_closed raises StreamClosedError(real_error=self.error) when the stream is closed")
+        falls = cc.cfg.exit
+        ck.ob("C13.closed-checks", cc, cc.node, has(gf[falls.id], "self.closed()", False) or has(gf[falls.id], "self._closed", False), "_check_closed returns normally only for an open stream", construct="_check_closed normal return implies open")
+    else:
+        ck.note("_check_closed does not exist (inlined at its call sites); the callers' own closed tests are used")
 
     # write
     w = ck.func(IO, B + ".write")
@@ -495,10 +589,12 @@ def closed_checks(ck):
     ef = event_facts(t, {"chk": node_calls("self._check_closed")}, cond_facts=False)
     fills = t.cfg.stmt_nodes(node_calls("self._read_to_buffer_loop", "self._read_to_buffer"))
     ck.floor("C13.inline-read-check", len(fills), 1, "fd reads in _try_inline_read")
+    gft0 = guard_facts(t, eff)
+    open_known = lambda n: ("@chk", True) in ef[n.id] or has(gft0[n.id], "self.closed()", False) or has(gft0[n.id], "self._closed", False)
     for n in fills:
-        ck.ob("C13.inline-read-check", t, n.ast, ("@chk", True) in ef[n.id], "_try_inline_read checks for a closed stream before reading from the fd")
+        ck.ob("C13.inline-read-check", t, n.ast, open_known(n), "_try_inline_read checks for a closed stream before reading from the fd")
     finds = t.cfg.stmt_nodes(node_calls("self._find_read_pos"))
-    ck.ob("C13.inline-read-check", t, t.node, any(("@chk", True) not in ef[n.id] for n in finds), "the buffered data is tried before the closed check (later reads still succeed from data already buffered)", construct="buffer attempt precedes _check_closed in _try_inline_read")
+    ck.ob("C13.inline-read-check", t, t.node, any(not open_known(n) for n in finds), "the buffered data is tried before the closed check (later reads still succeed from data already buffered)", construct="buffer attempt precedes _check_closed in _try_inline_read")
     regs = t.cfg.stmt_nodes(node_calls("self._add_io_state"))
     gft = guard_facts(t, eff)
     for n in regs:
@@ -518,7 +614,7 @@ def closed_checks(ck):
     ef = event_facts(s, {"chk": node_calls("self._check_closed")}, cond_facts=False)
     asserts = s.cfg.stmt_nodes(lambda n: n.kind == "stmt" and isinstance(n.ast, ast.Assert))
     for n in asserts:
-        ck.ob("C13.inline-read-check", s, n.ast, ("@chk", True) in ef[n.id], "_start_read raises StreamClosedError (not AssertionError) when the previous read was left pending by a close")
+        ck.ob("C13.inline-read-check", s, n.ast, ("@chk", True) in ef[n.id] or has(gfs[n.id], "self.closed()", False) or has(gfs[n.id], "self._closed", False), "_start_read raises StreamClosedError (not AssertionError) when the previous read was left pending by a close")
     news = s.cfg.stmt_nodes(lambda n: n.kind == "stmt" and isinstance(n.ast, ast.Assign) and "self._read_future" in q.assigned_paths(n.ast))
     ck.floor("C13.inline-read-check", len(news), 1, "read future creation in _start_read")
     for n in news:
